@@ -41,9 +41,29 @@ package antispam
 // Maintenance: per source, the new counter is min(max(x - T, 0), U*T) for the
 // source's own stored threshold T (0 = forget the source).
 
+// Every round takes the lock and visits every source, banned or not: the decay of the
+// counters of sources that are NOT banned is what "events since the previous
+// maintenance round" means.  Each visited source is either forgotten (counter 0) or
+// gets its new counter (ghost counters: loads = swaps + forgets).
+
 //@ func (*Antispammer).Maintenance
 //@   ghost gx int = 0
+//@   ghost nlock int = 0
+//@   ghost nload int = 0
+//@   ghost nsw int = 0
+//@   ghost ndel int = 0
+//@   ensures nlock == 1 && nload == nsw + ndel
+//@   loop 1 invariant nlock == 1 && nload == nsw + ndel
+//@   callee Lock()
+//@     set nlock := nlock + 1
+//@   callee Swap(v) (o)
+//@     pure
+//@     set nsw := nsw + 1
+//@   callee DeleteLabelValues(l) (r)
+//@     pure
+//@     set ndel := ndel + 1
 //@   assert at "source.counter.Swap(int32(x))" x == min(max(gx - threshold, 0), a.unbanIterations * threshold) || (gx - threshold > a.unbanIterations * threshold && x == a.unbanIterations * threshold)
 //@   callee Load() (r)
 //@     pure
 //@     set gx := r
+//@     set nload := nload + 1
